@@ -1206,6 +1206,11 @@ def check(program, rep):
     rep.guard("C02-R6", r6_raises, program, rep)
     rep.guard("C02-R6", r6_empty_population, program, rep)
     rep.guard("C02-R7", r7_link, program, rep)
+    # the constraint-rewriting helpers work on copies: the caller's lists
+    # (re-used for the next call, or given to the router) stay as they were
+    from . import C17
+    rep.guard("C17-R1", C17.r1_for, program, rep,
+              ["rig.place_and_route.place.utils"])
     # arguments handed to package functions under the wrong name / same-
     # named optional parameters not passed on (NAMELINK, DESIGN.md 9.13)
     from .. import namelink as _nl
